@@ -238,7 +238,7 @@ class Snapping(LaplaceTruncated):
         """
         self._check_all(value)
         if self.sensitivity == 0:
-            return self._truncate(value)
+            return super()._truncate(value)  # truncate to [lower, upper], not to the centred bound
 
         value_scaled_offset = self._scale_and_offset_value(value)
         value_clamped = self._truncate(value_scaled_offset)
